@@ -222,7 +222,7 @@ impl SanType {
 				SanType::IpAddress(ip_addr_from_octets(octets)?)
 			},
 			x509_parser::extensions::GeneralName::OtherName(oid, value) => {
-				let oid = oid.iter().ok_or(Error::CouldNotParseCertificate)?;
+				let oid = oid_components(oid)?;
 				// We first remove the explicit tag ([0] EXPLICIT)
 				let (_, other_name) = TaggedExplicit::<asn1_rs::Any, _, 0>::from_der(value)
 					.map_err(|_| Error::CouldNotParseCertificate)?;
@@ -236,7 +236,7 @@ impl SanType {
 					),
 					_ => return Err(Error::CouldNotParseCertificate),
 				};
-				SanType::OtherName((oid.collect(), other_name_value))
+				SanType::OtherName((oid, other_name_value))
 			},
 			_ => return Err(Error::InvalidNameType),
 		})
@@ -368,11 +368,7 @@ impl DistinguishedName {
 				panic!("x509-parser distinguished name set is empty");
 			};
 
-			let attr_type_oid = attr
-				.attr_type()
-				.iter()
-				.ok_or(Error::CouldNotParseCertificate)?;
-			let dn_type = DnType::from_oid(&attr_type_oid.collect::<Vec<_>>());
+			let dn_type = DnType::from_oid(&oid_components(attr.attr_type())?);
 			let data = attr.attr_value().data;
 			let try_str =
 				|data| std::str::from_utf8(data).map_err(|_| Error::CouldNotParseCertificate);
@@ -550,6 +546,41 @@ fn check_oid(oid: &[u64]) -> Result<(), Error> {
 			Ok(())
 		},
 		_ => Err(Error::InvalidOid),
+	}
+}
+
+/// The components of an OID read by x509-parser.
+///
+/// The first sub-identifier of the encoding holds the first two components (X.690 section
+/// 8.19.4): under a first component of 2 the second one may be 40 or more, and the
+/// sub-identifier then takes more than one octet.
+#[cfg(feature = "x509-parser")]
+fn oid_components(
+	oid: &x509_parser::der_parser::asn1_rs::Oid<'_>,
+) -> Result<Vec<u64>, Error> {
+	let mut components = Vec::new();
+	let mut value = 0u64;
+	let mut pending = false;
+	for byte in oid.as_bytes() {
+		if value > u64::MAX >> 7 {
+			return Err(Error::CouldNotParseCertificate);
+		}
+		value = value << 7 | u64::from(byte & 0x7f);
+		pending = byte & 0x80 != 0;
+		if pending {
+			continue;
+		}
+		if components.is_empty() {
+			let first = (value / 40).min(2);
+			components.push(first);
+			value -= first * 40;
+		}
+		components.push(value);
+		value = 0;
+	}
+	match pending || components.is_empty() {
+		true => Err(Error::CouldNotParseCertificate),
+		false => Ok(components),
 	}
 }
 
